@@ -152,15 +152,19 @@ func compareDumps(cut int, stage string, a, b *fullDump) []Failure {
 		return nil
 	}
 	ld := diffTables(a.lenient, b.lenient)
-	if len(ld) > 0 {
-		var names []string
-		for _, d := range ld {
-			names = append(names, d.Table)
+	for _, d := range ld {
+		if d.Table == "index" {
+			// one failure per differing index row
+			for _, key := range diffIndexKeys(a.lenient["index"], b.lenient["index"]) {
+				out = append(out, Failure{Cut: cut, Stage: stage, Signature: map[string]any{"kind": "index-row-differs", "key": indexKeyClass(key)},
+					Detail: "index table row " + key + " differs after restore", Tables: []tableDiff{d}})
+			}
+			continue
 		}
-		out = append(out, Failure{Cut: cut, Stage: stage, Signature: map[string]any{"kind": "state-differs", "stage": stage, "tables": strings.Join(names, ",")},
-			Detail: "canonical dump differs after restore in tables " + strings.Join(names, ","), Tables: ld})
+		out = append(out, Failure{Cut: cut, Stage: stage, Signature: map[string]any{"kind": "table-differs", "table": d.Table},
+			Detail: "canonical dump of table " + d.Table + " differs (" + stage + ")", Tables: []tableDiff{d}})
 	}
-	// strict-only differences: classify per table
+	// strict-only differences: a known deviation, by table
 	lenBad := map[string]bool{}
 	for _, d := range ld {
 		lenBad[d.Table] = true
@@ -169,21 +173,82 @@ func compareDumps(cut int, stage string, a, b *fullDump) []Failure {
 		if lenBad[d.Table] {
 			continue
 		}
-		switch d.Table {
-		case "usage":
-			// finding 14: same counts, row index is the maximum table index, zero-count rows vanish
-			out = append(out, Failure{Cut: cut, Stage: stage, Signature: map[string]any{"kind": "usage-row-index-after-restore"},
-				Detail: "usage rows: counts equal, row index / zero-count rows differ", Tables: []tableDiff{d},
-				Extra: map[string]string{"donor": strings.Join(a.usageRaw, "; "), "restored": strings.Join(b.usageRaw, "; ")}})
-		case "checks":
-			out = append(out, Failure{Cut: cut, Stage: stage, Signature: map[string]any{"kind": "check-service-fields-refreshed-by-restore"},
-				Detail: "a health check's ServiceName/ServiceTags (copied from its service when the check was last written) are re-copied from the service's current registration by the restore", Tables: []tableDiff{d}})
-		default:
-			out = append(out, Failure{Cut: cut, Stage: stage, Signature: map[string]any{"kind": "state-differs", "stage": stage, "tables": d.Table},
-				Detail: "strict rendering differs although lenient is equal (unexpected table)", Tables: []tableDiff{d}})
+		if d.Table == "index" {
+			for _, key := range diffIndexKeys(a.strict["index"], b.strict["index"]) {
+				kind := "index-row-differs"
+				if m := indexRowMask(strings.SplitN(key, "(", 2)[0]); m != 0 {
+					kind = maskKind[m]
+				}
+				out = append(out, Failure{Cut: cut, Stage: stage, Signature: map[string]any{"kind": kind}, Detail: "index table row " + key, Tables: []tableDiff{d}})
+			}
+			continue
 		}
+		m, ok := tableMask[d.Table]
+		if !ok {
+			out = append(out, Failure{Cut: cut, Stage: stage, Signature: map[string]any{"kind": "table-differs", "table": d.Table},
+				Detail: "strict rendering differs although lenient is equal (unexpected table)", Tables: []tableDiff{d}})
+			continue
+		}
+		if m2, ok2 := tableMask2[d.Table]; ok2 && d.NDonor != d.NOther {
+			m = m2
+		}
+		f := Failure{Cut: cut, Stage: stage, Signature: map[string]any{"kind": maskKind[m]}, Detail: "table " + d.Table, Tables: []tableDiff{d}}
+		if d.Table == "usage" {
+			f.Extra = map[string]string{"donor": strings.Join(a.usageRaw, "; "), "restored": strings.Join(b.usageRaw, "; ")}
+		}
+		out = append(out, f)
 	}
 	return out
+}
+
+// diffIndexKeys: keys of index rows that differ between two renderings of the index table.
+func diffIndexKeys(a, b []string) []string {
+	parse := func(rows []string) map[string]string {
+		m := map[string]string{}
+		for _, r := range rows {
+			var k string
+			var v uint64
+			if _, err := fmt.Sscanf(r, "{Key:%q,Value:%d}", &k, &v); err == nil {
+				m[k] = fmt.Sprint(v)
+			} else {
+				m[r] = "?"
+			}
+		}
+		return m
+	}
+	ma, mb := parse(a), parse(b)
+	seen := map[string]bool{}
+	var out []string
+	for k, v := range ma {
+		if mb[k] != v && !seen[k] {
+			seen[k] = true
+			out = append(out, fmt.Sprintf("%s(%s->%s)", k, v, mb[k]))
+		}
+	}
+	for k, v := range mb {
+		if ma[k] != v && !seen[k] {
+			seen[k] = true
+			out = append(out, fmt.Sprintf("%s(%s->%s)", k, ma[k], v))
+		}
+	}
+	sort.Strings(out)
+	return out
+}
+
+// indexKeyClass: the index key without its entity suffix and values ("service.web(5->9)" -> "service.<name>").
+func indexKeyClass(k string) string {
+	if i := strings.Index(k, "("); i >= 0 {
+		k = k[:i]
+	}
+	for _, p := range []string{"service.", "node.", "service_kind.", "kind_service_names.", "service_last_extinction", "node_last_extinction"} {
+		if j := strings.Index(k, p); j >= 0 {
+			if strings.HasSuffix(p, ".") {
+				return k[:j] + p + "<name>"
+			}
+			return k[:j] + p
+		}
+	}
+	return k
 }
 
 func compareQueries(cut int, stage string, a, b []queryResult) []Failure {
@@ -191,39 +256,47 @@ func compareQueries(cut int, stage string, a, b []queryResult) []Failure {
 	if len(a) != len(b) {
 		return []Failure{{Cut: cut, Stage: stage, Signature: map[string]any{"kind": "query-list-length"}, Detail: "query lists differ in length"}}
 	}
-	usageIdx, checkRefresh := false, false
-	var usageDetail, checkDetail string
+	known := map[maskSet]string{}
+	bad := 0
 	for i := range a {
 		if a[i].strict == b[i].strict {
 			continue
 		}
-		if a[i].lenient != b[i].lenient {
-			out = append(out, Failure{Cut: cut, Stage: stage, Signature: map[string]any{"kind": "query-differs", "query": strings.SplitN(a[i].name, ":", 2)[0]},
-				Detail: "query " + a[i].name, Extra: map[string]string{"donor": clip(a[i].lenient), "restored": clip(b[i].lenient)}})
-			if len(out) >= 4 {
-				break
+		la, lb := a[i].render(mAll), b[i].render(mAll)
+		if la != lb {
+			bad++
+			if bad <= 4 {
+				out = append(out, Failure{Cut: cut, Stage: stage, Signature: map[string]any{"kind": "query-differs", "query": strings.SplitN(a[i].name, ":", 2)[0]},
+					Detail: "query " + a[i].name, Extra: map[string]string{"donor": clip(la), "restored": clip(lb)}})
 			}
 			continue
 		}
-		if usageQueries[a[i].name] {
-			ia, ib := queryIndexOf(a[i].strict), queryIndexOf(b[i].strict)
-			if ib < ia {
-				out = append(out, Failure{Cut: cut, Stage: stage, Signature: map[string]any{"kind": "usage-index-went-backwards", "query": a[i].name},
-					Detail: fmt.Sprintf("%s index %d before, %d after restore", a[i].name, ia, ib)})
-				continue
+		// which deviations are needed to explain the difference
+		found := false
+		for _, m := range maskList {
+			if a[i].render(mAll&^m) != b[i].render(mAll&^m) {
+				found = true
+				if _, ok := known[m]; !ok {
+					known[m] = fmt.Sprintf("query %s: index %d before, %d after restore", a[i].name, a[i].idx, b[i].idx)
+				}
 			}
-			usageIdx = true
-			usageDetail = fmt.Sprintf("%s: index %d before, %d after restore (counts equal)", a[i].name, ia, ib)
-			continue
 		}
-		checkRefresh = true
-		checkDetail = a[i].name
+		if !found {
+			// several deviations each suffice: attribute to the first in maskList order
+			for _, m := range maskList {
+				if a[i].render(m) == b[i].render(m) {
+					if _, ok := known[m]; !ok {
+						known[m] = fmt.Sprintf("query %s: index %d before, %d after restore", a[i].name, a[i].idx, b[i].idx)
+					}
+					break
+				}
+			}
+		}
 	}
-	if usageIdx {
-		out = append(out, Failure{Cut: cut, Stage: stage, Signature: map[string]any{"kind": "usage-row-index-after-restore"}, Detail: usageDetail})
-	}
-	if checkRefresh {
-		out = append(out, Failure{Cut: cut, Stage: stage, Signature: map[string]any{"kind": "check-service-fields-refreshed-by-restore"}, Detail: "query " + checkDetail})
+	for _, m := range maskList {
+		if d, ok := known[m]; ok {
+			out = append(out, Failure{Cut: cut, Stage: stage, Signature: map[string]any{"kind": maskKind[m]}, Detail: d})
+		}
 	}
 	return out
 }
